@@ -189,7 +189,50 @@ def deep_tree_binary(ctx, seed):
         ctx.count('deep-tree:agree')
 
 
+def integer_equalities(ctx, seed):
+    """small mixed-integer LPs whose optimum is decided by EQUALITY rows (a cardinality row on binaries, a continuous variable
+    tied to a binary; general integers without any binary), against brute force over the integer part, through every interface"""
+    import itertools
+    from rsome import ro, ort_solver, eco_solver, grb_solver
+    r = np.random.default_rng(seed)
+    ctx.search_cases += 1; ctx.evaluations += 1
+    kind = str(r.choice(['binary-cardinality', 'general-integers']))
+    case = {"inteq_seed": seed, "kind": kind}
+    if kind == 'binary-cardinality':
+        n = int(r.integers(3, 6)); k = int(r.integers(1, n)); c = r.integers(1, 6, n).astype(float); g = float(r.choice([1.0, 2.0]))
+
+        def build():
+            m = ro.Model(); b = m.dvar(n, vtype='B'); y = m.dvar()
+            m.max(c @ b + y); m.st(b.sum() == k, y - g * b[0] == 1.0)
+            return m
+        truth = max(float(c @ np.array(bb)) + 1.0 + g * bb[0] for bb in itertools.product([0, 1], repeat=n) if sum(bb) == k)
+        ifaces = [('default', None), ('ortools', ort_solver), ('ecos', eco_solver), ('gurobi', grb_solver)]
+    else:
+        n = int(r.integers(2, 4)); c = r.choice([1.0, 2.0, 3.0], n); a = r.choice([2.0, 3.0, 5.0], n); cap = float(r.choice([7.0, 9.5, 11.0]))
+
+        def build():
+            m = ro.Model(); yv = m.dvar(n, vtype='I'); x = m.dvar()
+            m.max(c @ yv + 0.5 * x); m.st(a @ yv + x <= cap, yv >= 0, yv <= 4, x >= 0, x <= 0.75)
+            return m
+        truth = max(float(c @ np.array(v)) + 0.5 * min(0.75, cap - float(a @ np.array(v))) for v in itertools.product(range(5), repeat=n) if a @ np.array(v) <= cap)
+        ifaces = [('default', None), ('ortools', ort_solver), ('gurobi', grb_solver)]        # (ECOS' branch and bound stalls on general integers)
+    for name, solver in ifaces:
+        try:
+            with C.quiet():
+                m = build()
+                (m.solve(display=False) if solver is None else m.solve(solver, display=False))
+                val = float(m.get())
+        except Exception as ex:
+            ctx.hit('interface-raises:' + name + ':' + type(ex).__name__, {"error": str(ex)[:200]}, dict(case, interface=name)); continue
+        if abs(val - truth) > 1e-5 * (1 + abs(truth)):
+            ctx.hit('interface-differs-from-enumeration:' + name, {"reported": val, "enumeration": truth}, dict(case, interface=name))
+        else:
+            ctx.count('inteq:' + kind + ':' + name)
+
+
 def run(ctx):
+    for k in range(ctx.n(12, 150)):
+        integer_equalities(ctx, int(ctx.rng.integers(2 ** 31)))
     # correspondence: the arguments each interface really hands to its solver API (recorded by wrapping the entry points)
     # vs the Lean translation of the compiled program
     C.run_difftest(ctx, 'test_iface.py', ctx.n(40, 600), 'solver-API data of def_sol / ECOS / OR-Tools / Gurobi')
@@ -216,6 +259,9 @@ def run(ctx):
 def replay(rp):
     ctx = C.Ctx('C11', 'quick', 0)
     c = rp['case']
+    if 'inteq_seed' in c:
+        integer_equalities(ctx, c['inteq_seed'])
+        return {"hits": [(h['key'], h['detail']) for h in ctx.hits], "fails": bool(ctx.hits)}
     if 'deep_tree_seed' in c:
         deep_tree_binary(ctx, c['deep_tree_seed'])
         return {"hits": [(h['key'], h['detail']) for h in ctx.hits], "fails": bool(ctx.hits)}
